@@ -28,20 +28,37 @@ theorem sign1_abs (N : ℚ) : ((sign1 N : Int) : ℚ) * |N| = N := by
 /-- the rounded mantissa `floor(|N|·10^(−e)·10^(d−1) + ½)` -/
 def mant (N : ℚ) (d : ℕ) (e : Int) : Int := ⌊|N| * pow10 (-e) * pow10 ((d : Int) - 1) + 1 / 2⌋
 
+/-- **round_carry_noop**: over exact rationals the carry normalisation of fbce818
+    (`prefactor/10`, `DecimalPower+1` when the rounded mantissa reaches `10^digits`) does not change
+    the value — every law of `Round` proved for the un-normalised form carries over; the branch only
+    selects which of the two equal products `10.0·10^k = 1.0·10^(k+1)` is formed in double arithmetic -/
+theorem round_carry_noop (N : ℚ) (d : ℕ) (e : Int) : roundSig N d e = roundSigNoCarry N d e := by
+  unfold roundSig roundSigNoCarry
+  split
+  · rfl
+  · split
+    · rfl
+    · simp only
+      split
+      · have h10 : pow10 (e + 1) = pow10 e * 10 := pow10_succ e
+        rw [h10]; congr 1; ring
+      · rfl
+
 /-- closed form of the value `Round` computes -/
 theorem roundSig_ok (N : ℚ) (d : ℕ) (e : Int) (hN : N ≠ 0) (hd : d ≤ 7) :
     roundSig N d e = .ok (((sign1 N : Int) : ℚ) * ((mant N d e : ℚ) * pow10 (-(d : Int) + 1)) * pow10 e) := by
-  unfold roundSig mant
+  rw [round_carry_noop]
+  unfold roundSigNoCarry mant
   rw [if_neg (by omega), if_neg hN]
   simp only [sign1_mul]
   rfl
 
 theorem round_zero (d : ℕ) (e : Int) (hd : d ≤ 7) : roundSig 0 d e = .ok 0 := by
-  unfold roundSig; rw [if_neg (by omega)]; simp
+  rw [round_carry_noop]; unfold roundSigNoCarry; rw [if_neg (by omega)]; simp
 
 /-- more than seven digits → diagnostic (for every argument, zero included: 710b478) -/
 theorem roundSig_guard (N : ℚ) (d : ℕ) (e : Int) (hd : 7 < d) : roundSig N d e = .error .diag := by
-  unfold roundSig; rw [if_pos hd]
+  rw [round_carry_noop]; unfold roundSigNoCarry; rw [if_pos hd]
 
 theorem mant_neg (N : ℚ) (d : ℕ) (e : Int) : mant (-N) d e = mant N d e := by unfold mant; rw [abs_neg]
 
